@@ -44,6 +44,7 @@ func runC18(c *Ctx) {
 	// an unsynchronised map access is not a recoverable panic: the runtime aborts the process
 	ruleGuardedTypes(c, "RACEFREE", allSharedTypes(c), 14, 60)
 	rulePanics(c)
+	ruleNeverSetField(c, "PANICS")
 }
 
 // ruleJoin: a function that starts a helper goroutine which reports over an unbuffered channel created by that function returns
